@@ -30,11 +30,12 @@ def run(ctx):
             vlib.run_harness(['placement', 'fit', 'out=' + tr, 'seed=%d' % (sd * 10 + rules), 'cases=%d' % cases, 'rules=%d' % rules, 'peers=%d' % peers])
             bad, evs = ctx.monitor_all('placement', 'Fit', 'Fit.cfg', tr, 'fit_%d_%d' % (sd, rules), timeout=6000)
             handle(ctx, bad, evs, 'fit_%d_%d' % (sd, rules))
+            ctx.tally([e for e in evs if e.get('ev') == 'case'], lambda e: e['case'], lambda e: len(e['case']['peers']) >= 2 and len(e['case']['rules']) >= 2)
             total += len(evs) - 1
             ctx.sample({'kind': 'FitRegion case with the real result', 'case': evs[1]['case'], 'result': evs[1]['result']})
     ctx.extra['cases_checked'] = total
     ctx.extra['satisfied_cases'] = 'see evidence samples'
-    return ctx.finish(level='exploration', rule='Fit.tla defines valid assignments, role mismatches, isolation score and the best assignment under the documented order; '
+    return ctx.finish(level='exploration', rule='evaluations = FitRegion cases; non-trivial = at least two peers and two rules, distinct by the whole case. Fit.tla defines valid assignments, role mismatches, isolation score and the best assignment under the documented order; '
                            'seeded cases (3-6 stores with zone/host/disk/engine labels, 1-6 peers with learners and a leader, 1-4 rules with all four '
                            'constraint operators and location labels) are run through the real placement.FitRegion and TLC checks every recorded '
                            'result against the definitions (all (rules+1)^peers assignments enumerated per case)')
